@@ -88,6 +88,8 @@ fn selection(ctx: &mut Ctx, tape: &[u8]) -> CaseResult {
     let with_cert = t.chance(50);
     // a withdrawal is an implicit input: with it the lovelace can be covered before any input is selected
     let wd_mode = if dup { 1 + t.choose(4) } else { 0 };
+    // a caller-requested minimum fee at or below the real one must not change what has to be covered
+    let fee_req = if t.chance(64) { 1 + t.choose(4) } else { 0 };
 
     let cfg = TransactionBuilderConfigBuilder::new()
         .fee_algo(&LinearFee::new(&bn(fee_a), &bn(fee_b)))
@@ -230,6 +232,20 @@ fn selection(ctx: &mut Ctx, tape: &[u8]) -> CaseResult {
         m
     };
     let out_coin: u128 = total_out as u128 + deposit;
+    let mut min_fee_request: Option<u64> = None;
+    if fee_req > 0 {
+        if let Some(real) = catch(|| tb.min_fee()).ok().and_then(|r| r.ok()).map(u64::from) {
+            let f = match fee_req {
+                1 => 1,
+                2 => real / 2,
+                3 => real.saturating_sub(1),
+                _ => real,
+            };
+            tb.set_min_fee(&bn(f));
+            min_fee_request = Some(f);
+            ctx.label("min-fee-requested-at-or-below-the-real-fee");
+        }
+    }
     let entry_fee = catch(|| tb.min_fee()).ok().and_then(|r| r.ok()).map(|f| u64::from(f) as u128).unwrap_or(0);
     let (before_coin, before_assets) = value_of(&before);
     let short_at_entry = before_coin + implicit < out_coin + entry_fee;
@@ -246,7 +262,7 @@ fn selection(ctx: &mut Ctx, tape: &[u8]) -> CaseResult {
             out_specs.iter().map(|o| (o.0, o.1.values().cloned().collect::<Vec<_>>())).collect::<Vec<_>>(),
             before.iter().map(|k| utxos.get(k).map(|u| u.coin).unwrap_or(0)).collect::<Vec<_>>(),
             offered_keys.iter().map(|k| (utxos[k].coin, utxos[k].assets.values().cloned().collect::<Vec<_>>())).collect::<Vec<_>>(),
-            format!("{}{}", if with_cert { format!(" +stake_registration(deposit {})", key_deposit) } else { String::new() }, if withdrawal > 0 { format!(" +withdrawal({})", withdrawal) } else { String::new() }),
+            format!("{}{}", if with_cert { format!(" +stake_registration(deposit {})", key_deposit) } else { String::new() }, if withdrawal > 0 { format!(" +withdrawal({})", withdrawal) } else { String::new() }) + &min_fee_request.map(|f| format!(" +set_min_fee({})", f)).unwrap_or_default(),
             log
         )
     };
